@@ -430,11 +430,14 @@ TypeOK ==
 (***************************************************************************)
 Fairness ==
   /\ WF_vars(\E h \in Heights : SpawnRetry(h)) /\ WF_vars(SpawnCatchup) /\ WF_vars(SpawnEnd)
-  /\ WF_vars(\E id \in DOMAIN jobs : Deliver(id))
+  \* Go's select chooses among its ready cases at random: a case that is ready infinitely often is
+  \* eventually taken (strong fairness) even if stale heads / statistics requests keep arriving
+  /\ SF_vars(\E id \in DOMAIN jobs : Deliver(id))
   /\ WF_vars(\E id \in DOMAIN jobs : WorkerStep(id, "ok"))
   /\ WF_vars(\E h \in Heights : BackoffExpire(h))
-  /\ WF_vars(Poke)     \* events keep arriving (in practice: new heads every few seconds)
-  /\ WF_vars(Start) /\ WF_vars(StopCancel) /\ WF_vars(CoordCtxDone) /\ WF_vars(StopFinal)
+  /\ SF_vars(Poke)     \* events keep arriving (in practice: new heads every few seconds)
+  /\ SF_vars(CoordCtxDone)
+  /\ WF_vars(Start) /\ WF_vars(StopCancel) /\ WF_vars(StopFinal)
   /\ WF_vars(\E id \in DOMAIN jobs : WorkerCtxDone(id))
   /\ WF_vars(BgPersist)
 LiveSpec == Spec /\ Fairness
